@@ -244,6 +244,22 @@ def check(ctx):
     ctx.decide(ok, "R-DOM/notify", f"{pa.qual}.wait", pa.where(wt),
                "every event notify() waits for is set by wait() on every path",
                f"notify() waits for {n_waits} but wait() sets {w_sets}: the dispatch thread blocks forever", key="rendezvous")
+    # no lost wake-up: the awaited event is never cleared on a path that then waits for it - the answer may be dispatched (set())
+    # before the caller reaches wait(); clearing first erases that and the caller blocks forever (and the dispatcher with it)
+    bad_clear = None
+    for e_ in waited_ev:
+        for cn_ in [n for n in cfgw.nodes.values() if any(call_name(c) == f"{e_}.clear" for c in node_calls(n))]:
+            reach = set()
+            for t_, l_ in cfgw.succ.get(cn_.id, []):
+                if l_ != "exc":
+                    reach |= cfgw.reachable(t_) | {t_}
+            if any(any(call_name(c) == f"{e_}.wait" for c in node_calls(cfgw.nodes[r_])) for r_ in reach):
+                bad_clear = (e_, cn_)
+    ctx.decide(bad_clear is None, "R-WAKE/clear-before-wait", f"{pa.qual}.wait", pa.where(bad_clear[1].ast if bad_clear else wt),
+               "the awaited event is cleared only after the wait returned",
+               f"wait() clears {bad_clear[0] if bad_clear else ''} and then blocks on it: when the answer was dispatched before the caller got "
+               f"here, the set() is erased, the caller never wakes although its answer has arrived, and the dispatch thread blocks in "
+               f"notify() waiting for the caller", key="clear_before_wait")
     order_ok = bool(waited_ev) and all(f"{e}.set" in w_calls for e in n_waits) and \
         w_calls.index(f"{waited_ev[0]}.wait") < min([w_calls.index(f"{e}.set") for e in n_waits] or [99])
     ctx.decide(order_ok, "R-DOM/notify", f"{pa.qual}.wait", pa.where(wt), "wait() releases the notifier only after waking",
